@@ -87,8 +87,9 @@ mod __verif_native_lz {
     fn inputs() -> Vec<Vec<u8>> {
         let mut v: Vec<Vec<u8>> = vec![vec![]];
         // every string over {a,b} up to 12 bytes, over {0,1,2} up to 7 bytes
-        for len in 1..=12usize { for bits in 0..(1u32 << len) { v.push((0..len).map(|i| if bits >> i & 1 == 1 { b'b' } else { b'a' }).collect()); } }
-        for len in 1..=7usize { let mut idx = vec![0u8; len]; loop { v.push(idx.clone());
+        let (max_ab, max_012) = if thorough() { (16usize, 9usize) } else { (12usize, 7usize) };
+        for len in 1..=max_ab { for bits in 0..(1u32 << len) { v.push((0..len).map(|i| if bits >> i & 1 == 1 { b'b' } else { b'a' }).collect()); } }
+        for len in 1..=max_012 { let mut idx = vec![0u8; len]; loop { v.push(idx.clone());
             let mut k = 0; while k < len { idx[k] += 1; if idx[k] < 3 { break; } idx[k] = 0; k += 1; } if k == len { break; } } }
         // periodic inputs: period p, length n (token counts around multiples of 8 included)
         for &p in &[1usize, 2, 3, 5, 7, 8, 9, 16, 17, 18, 19, 31, 32, 255, 256, 4095, 4096] {
